@@ -2,6 +2,7 @@ package main
 
 import (
 	"fmt"
+	"go/token"
 	"strings"
 
 	"golang.org/x/tools/go/ssa"
@@ -11,7 +12,7 @@ import (
 
 func init() {
 	checks["C12"] = checkC12
-	explanations["C12"] = "Structural necessary conditions over everything reachable from cbor.Unmarshal, (*Decoder).Decode, ArrayShift and the convention types' unmarshalers (codec dispatch edges added by hand), every input byte treated as attacker-controlled: (1) G2: each allocation whose size derives from a wire head is dominated by an upper-bound comparison (MaxArrayDecodeLength) whose failing edge returns an error; (2) Unmarshal returns success only after buf.Len() > 0 was false (no trailing bytes); (3) G1: every explicit panic is an SSA artifact, type-shape dependent, exhaustive-switch fallthrough or by-construction (reviewed table), with the head-byte helpers' invariants checked; (4) G3/G4: index/slice expressions the compiler could not prove and stdlib preconditions are guarded; (5) allocations proportional to a CLAIMED rather than a received length are enumerated — they pass clause 1 (bounded by the documented limit) but contradict the property's last sentence, and are carried as known findings. Not decided: termination, exact consumption of a well-formed item, reflect-internal panics, stack depth."
+	explanations["C12"] = "Structural necessary conditions over everything reachable from cbor.Unmarshal, (*Decoder).Decode, ArrayShift and the convention types' unmarshalers (codec dispatch edges added by hand), every input byte treated as attacker-controlled: (1) G2: each allocation whose size derives from a wire head is dominated by an upper-bound comparison (MaxArrayDecodeLength) whose failing edge returns an error; (2) Unmarshal returns success only after buf.Len() > 0 was false (no trailing bytes), and a byte-string wrapper (Bstr, ByteWrap) reports success only after the reader limited to the declared length was found exhausted; (3) G1: every explicit panic is an SSA artifact, type-shape dependent, exhaustive-switch fallthrough or by-construction (reviewed table), with the head-byte helpers' invariants checked; (4) G3/G4: index/slice expressions the compiler could not prove and stdlib preconditions are guarded; (5) allocations proportional to a CLAIMED rather than a received length are enumerated — they pass clause 1 (bounded by the documented limit) but contradict the property's last sentence, and are carried as known findings. Not decided: termination, exact consumption of a well-formed item, reflect-internal panics, stack depth."
 }
 
 func checkC12(c *Ctx, p *Prog, r *Result) {
@@ -67,6 +68,9 @@ func checkC12(c *Ctx, p *Prog, r *Result) {
 	r.rule("C12.no-trailing-data", "cbor.Unmarshal returns nil only after Decode succeeded and buf.Len() > 0 was false")
 	r.floor("C12.no-trailing-data", 1)
 	r.requireAtReturns(fu, "C12.no-trailing-data", um, 0, []Atom{"decoded-ok", "no-trailing"})
+
+	// (2b) a byte string that wraps an item is consumed in full
+	c12WrappedItemConsumed(p, r)
 
 	// head helpers invariants behind two reviewed panics
 	r.rule("C12.head-bytes", "the additional-bytes buffer is made with a constant size of 1, 2, 4 or 8 (so toU64 never sees more than 8 bytes)")
@@ -125,12 +129,10 @@ func checkC12(c *Ctx, p *Prog, r *Result) {
 				}
 				switch p.calleeOf(call.Common()).Name {
 				case "fdo/cbor.NewDecoder":
-					pv := m.Prov(call.Common().Args[0])
-					r.table(p, "C12.bstr-bounded", siteKey(p, call), p.instrPos(call), pv.Has("call:io.LimitReader") && pv.Has("call:fdo/cbor.Decoder.UnwrapBytes"), "inner decoder's reader derives from io.LimitReader(_, n) with n from UnwrapBytes")
+					r.table(p, "C12.bstr-bounded", siteKey(p, call), p.instrPos(call), limitedByUnwrap(m, call.Common().Args[0]), "inner decoder's reader is io.LimitReader(_, n) / &io.LimitedReader{N: n} with n from UnwrapBytes")
 				case "io.ReadFull":
 					buf := call.Common().Args[1]
-					rd := m.Prov(call.Common().Args[0])
-					ok2 := rd.Has("call:io.LimitReader") && rd.Has("call:fdo/cbor.Decoder.UnwrapBytes")
+					ok2 := limitedByUnwrap(m, call.Common().Args[0])
 					if ms, isMake := buf.(*ssa.MakeSlice); isMake {
 						ok2 = ok2 || m.Prov(ms.Len).Has("call:fdo/cbor.Decoder.UnwrapBytes")
 					}
@@ -183,4 +185,143 @@ func c12ClaimedLength(e *E3, p *Prog, r *Result, f *Flow) {
 			}
 		}
 	}
+}
+
+// c12WrappedItemConsumed: a decoder that reads the item wrapped in a byte
+// string through a length-limited reader must find that reader exhausted before
+// it reports success; otherwise the rest of the byte string is parsed as the
+// items that follow it (a truncated or tampered input decodes).
+func c12WrappedItemConsumed(p *Prog, r *Result) {
+	rule := "C12.wrapped-item-consumed"
+	r.rule(rule, "every function of package cbor that decodes an item through a reader limited to a decoded byte-string length reports success only after that limited reader was found exhausted (its remaining count compared with 0), or reads exactly that many bytes with io.ReadFull")
+	r.floor(rule, 2)
+	exhausted := AtomDef{Name: "limit-exhausted", Doc: "the limited reader's remaining count is 0", Edge: func(m *Matcher, pd Pred, holds bool) bool {
+		if pd.Kind != "eq" || !holds {
+			return false
+		}
+		for _, pr := range [][2]ssa.Value{{pd.X, pd.Y}, {pd.Y, pd.X}} {
+			if !isConstInt(pr[1], 0) {
+				continue
+			}
+			if ld, ok := pr[0].(*ssa.UnOp); ok && ld.Op == token.MUL {
+				if fa, ok := ld.X.(*ssa.FieldAddr); ok && fieldName(fa.X.Type(), fa.Field) == "io.LimitedReader.N" {
+					return true
+				}
+			}
+		}
+		return false
+	}}
+	n := 0
+	for _, fn := range p.Funcs {
+		if funcPkgPath(fn) != modulePath+"/cbor" {
+			continue
+		}
+		// does fn create a limited reader?
+		limited := false
+		for _, b := range fn.Blocks {
+			for _, in := range b.Instrs {
+				switch x := in.(type) {
+				case *ssa.Call:
+					if p.calleeOf(x.Common()).Name == "io.LimitReader" {
+						limited = true
+					}
+				case *ssa.Alloc:
+					if typeShort(x.Type()) == "*io.LimitedReader" || typeShort(x.Type()) == "io.LimitedReader" {
+						limited = true
+					}
+				}
+			}
+		}
+		if !limited {
+			continue
+		}
+		f := NewFlow(p, &RuleSet{Atoms: []AtomDef{exhausted}}, []*ssa.Function{fn}, func(g *ssa.Function) bool { return g != fn })
+		for _, b := range fn.Blocks {
+			for _, in := range b.Instrs {
+				call, ok := in.(*ssa.Call)
+				if !ok || p.calleeOf(call.Common()).Name != "fdo/cbor.Decoder.Decode" {
+					continue
+				}
+				// the decoder reads from the limited reader
+				nd, ok := allArgs(call)[0].(*ssa.Call)
+				if !ok || p.calleeOf(nd.Common()).Name != "fdo/cbor.NewDecoder" {
+					continue
+				}
+				src := nd.Call.Args[0]
+				for {
+					if mi, ok := src.(*ssa.MakeInterface); ok {
+						src = mi.X
+						continue
+					}
+					if ci, ok := src.(*ssa.ChangeInterface); ok {
+						src = ci.X
+						continue
+					}
+					break
+				}
+				isLimited := false
+				switch x := src.(type) {
+				case *ssa.Call:
+					isLimited = p.calleeOf(x.Common()).Name == "io.LimitReader"
+				case *ssa.Alloc:
+					isLimited = typeShort(x.Type()) == "*io.LimitedReader" || typeShort(x.Type()) == "io.LimitedReader"
+				}
+				if !isLimited {
+					continue
+				}
+				// every return reachable from this call with a possibly-nil error needs the fact
+				seen := map[*ssa.BasicBlock]bool{}
+				var walk func(bb *ssa.BasicBlock)
+				walk = func(bb *ssa.BasicBlock) {
+					if seen[bb] {
+						return
+					}
+					seen[bb] = true
+					if ret, ok := bb.Instrs[len(bb.Instrs)-1].(*ssa.Return); ok {
+						st := f.StateAt(ret)
+						errv := returnValue(ret, len(ret.Results)-1)
+						if !provablyNonNil(p, errv, st, 0) {
+							n++
+							r.table(p, rule, fmt.Sprintf("return #%d after the wrapped decode in %s", n, p.FuncName(fn)), p.instrPos(ret), st.Has("limit-exhausted"), "success requires the limited reader to be exhausted")
+						}
+						return
+					}
+					for _, s := range bb.Succs {
+						walk(s)
+					}
+				}
+				walk(b)
+			}
+		}
+	}
+}
+
+// limitedByUnwrap: v is a reader limited to the byte count that UnwrapBytes
+// returned: io.LimitReader(_, n) or a literal &io.LimitedReader{N: n}.
+func limitedByUnwrap(m *Matcher, v ssa.Value) bool {
+	for {
+		if mi, ok := v.(*ssa.MakeInterface); ok {
+			v = mi.X
+			continue
+		}
+		if ci, ok := v.(*ssa.ChangeInterface); ok {
+			v = ci.X
+			continue
+		}
+		break
+	}
+	switch x := v.(type) {
+	case *ssa.Call:
+		if m.P.calleeOf(x.Common()).Name == "io.LimitReader" {
+			return m.Prov(x.Call.Args[1]).Has("call:fdo/cbor.Decoder.UnwrapBytes")
+		}
+	case *ssa.Alloc:
+		if typeShort(x.Type()) != "*io.LimitedReader" && typeShort(x.Type()) != "io.LimitedReader" {
+			return false
+		}
+		if n, has := litFields(x)["N"]; has {
+			return m.Prov(n).Has("call:fdo/cbor.Decoder.UnwrapBytes")
+		}
+	}
+	return false
 }
